@@ -93,3 +93,188 @@ Check eq_refl : rs_addview = fun x =>
 Check eq_refl : py_addview = fun x =>
   match x with Ret None => AVSame | Ret (Some (Plus d)) => AVPlus d | _ => AVOther end.
 Check eq_refl : py_do_op = fun t o => let '(sh, pr, skip) := o in fst (py_step t sh pr skip).
+
+(** ---- whole runs (Proofs/PyRunAgree.v) ---- *)
+From BB Require Import InstrsModel MachineModel ProverModel PyProverModel PyMachineModel PyRunAgree.
+
+Check C17_py_rs_run_agree : forall comp lim r r',
+  run_inside comp lim = true ->
+  py_run comp lim = PyDone r ->
+  run_prover comp lim = Ok r' ->
+  results_agree r r'.
+Check C17_py_try_rule_agree : forall comp pp pv cyc st t,
+  prover_rel pp pv -> canon_tape t -> tape_small t = true -> cyc < 2147483648 ->
+  try_inside comp pp cyc st t = true ->
+  match try_rule comp pv cyc st t with
+  | Panic => True
+  | Ok (res, pv') =>
+      let '(pres, pp') := py_try_rule comp pp cyc st t in
+      pres_class pres = PcLeave \/
+      (prover_rel pp' pv' /\
+       match res with
+       | None => pres_class pres = PcNone
+       | Some (Got r) => pres_class pres = PcRule r /\ rule_good r
+       | Some ConfigLimit => pres_class pres = PcCfg
+       | Some InfiniteRule => pres_class pres = PcInf
+       | Some MultRule => False
+       end)
+  end.
+Check C17_py_run_simulator_agree : forall comp pp pv,
+  lookup_eq (pp_rules pp) (pv_rules pv) -> rules_good (pv_rules pv) ->
+  forall d st t, canon_tape t -> sim_inside comp pp (Z.to_N d) st t = true ->
+  match run_simulator comp pv d st t with
+  | Panic => True
+  | Ok x => py_run_simulator comp pp d st t = PRet x /\
+            (forall st' t', x = Some (st', t') -> canon_tape t')
+  end.
+Check C17_py_rs_make_rule : forall c1 c2 c3 c4,
+  counts_ok c1 -> counts_ok c2 -> counts_ok c3 -> counts_ok c4 ->
+  match py_make_rule_raw c1 c2 c3 c4 with
+  | Ret None | Raise (ExSuspectedRule _ _) => make_rule c1 c2 c3 c4 = Ok None
+  | Ret (Some (r, sd)) => sd = false -> py_has_mult r = false -> make_rule c1 c2 c3 c4 = Ok (Some r)
+  | _ => True
+  end.
+Check C17_rs_mult_is_py_mult : forall a b c d q r,
+  cnt_ok a -> cnt_ok b -> cnt_ok c -> cnt_ok d ->
+  calculate_diff a b c d = Ok (DGot (MultOp q r)) ->
+  py_calculate_diff a b c d = Ret (Some (MultOp q r)).
+Check C17_run_nonvacuous :
+  run_inside C17_run_example 120 = true /\
+  (exists r, py_run C17_run_example 120 = PyDone r /\ pr_kind r = PkSpnout /\ pr_marks r = 0 /\
+             pr_rulapp r = 22 /\ pr_blanks r = [(1, (-1)%Z); (2, (-1)%Z); (3, (-1)%Z)] /\ pr_cycles r = 64) /\
+  run_prover C17_run_example 120 = Ok (mkRes spnout 466 64 0 22 [(1, 464); (2, 465); (3, 466)] None).
+Check C17_whole_run_differs_D1 :
+  (exists r, py_run C17_d1_program 2910 = PyDone r /\ pr_kind r = PkInfrul /\ pr_cycles r = 2899) /\
+  (exists r', run_prover C17_d1_program 2910 = Ok r' /\ r_result r' = xlimit) /\
+  run_inside C17_d1_program 2910 = false.
+Check C17_whole_run_differs_D3 :
+  (exists r, py_run C17_d3_program 830 = PyDone r /\ pr_kind r = PkInfrul /\ pr_cycles r = 820
+             /\ pr_marks r = 58 /\ pr_rulapp r = 515) /\
+  (exists r', run_prover C17_d3_program 830 = Ok r' /\ r_result r' = xlimit
+              /\ r_marks r' = 58 /\ r_rulapp r' = 515) /\
+  run_inside C17_d3_program 830 = false.
+Check C17_min_sig_differs_D4 :
+  let t := mkTape 0 [(1, 5)] [(2, 3)] in
+  let r : rule := [((false, 0), Plus (-1)); ((true, 0), Plus 1)] in
+  let p := py_set_rule py_prover_new r 0 (mkSig 0 [] [], (false, false)) in
+  py_get_min_sig [] p 1%Z 0 (py_to_enum t) (py_signature t)
+    = PRet (mkSig 0 [Mult 1] [Mult 2], (false, false)) /\
+  get_min_sig [] (rs_view p) 1%Z 0 (et_from t) (tape_sig t)
+    = Ok (mkSig 0 [] [], (false, false)).
+Check C17_cycle_cast_differs_D6 :
+  fst (py_try_rule [] py_prover_new 2147483648 0 (init_tape 0)) = PRaise PeOverflowError /\
+  (exists pv', try_rule [] prover_new 2147483648 0 (init_tape 0) = Ok (None, pv')).
+(* the definitions the whole-run statement rests on, pinned too *)
+Check eq_refl : results_agree = fun r r' =>
+  rs_kind_of (pr_kind r) = r_result r' /\
+  pr_marks r = r_marks r' /\
+  pr_rulapp r = r_rulapp r' /\
+  (forall q, pyb_mem q (pr_blanks r) = blanks_mem q (r_blanks r')) /\
+  (forall q v, In (q, v) (pr_blanks r) -> v <> (-1)%Z -> In (q, Z.to_N v) (r_blanks r')) /\
+  (pr_kind r = PkUndfnd -> pr_undfnd r = r_last_slot r').
+Check eq_refl : rs_kind_of = fun k =>
+  match k with
+  | PkUndfnd => undfnd | PkSpnout => spnout | PkInfrul => infrul
+  | PkXlimit => xlimit | PkCfglim => cfglim
+  end.
+Check eq_refl : run_inside = fun comp lim =>
+  match for_upto lim (gbody (iter_inside comp) (py_body comp)) py_machine_init with
+  | inr None => false
+  | _ => true
+  end.
+Check eq_refl : iter_inside = fun comp m =>
+  tape_small (pm_tape m) && (pm_cycle m <? 2147483648) &&
+  try_inside comp (pm_prover m) (pm_cycle m) (pm_state m) (pm_tape m).
+Check eq_refl : @gbody = fun St Rs g body s =>
+  if g s then match body s with inl s' => inl s' | inr r => inr (Some r) end else inr None.
+Check eq_refl : tape_small = fun t =>
+  forallb (fun b : colour * N => snd b <? 2147483648) (lspan t)
+  && forallb (fun b : colour * N => snd b <? 2147483648) (rspan t).
+Check eq_refl : sim_inside = fun comp pp n st t =>
+  match for_upto n (gbody (fun s : state * tape => tape_small (snd s)) (py_sim_body comp pp)) (st, t) with
+  | inr None => false
+  | _ => true
+  end.
+Check eq_refl : round_inside = fun comp pp st sig d tags =>
+  sim_inside comp pp (Z.to_N d) st tags &&
+  match py_run_simulator comp pp d st tags with
+  | PRet (Some (st', tags')) =>
+      tape_small tags' &&
+      (if st' =? st then Bool.eqb (py_sig_compatible tags' sig) (sig_compatible tags' sig) else true)
+  | _ => true
+  end.
+Check eq_refl : minsig_inside = fun comp p2 d1 st t sig =>
+  match py_get_min_sig comp p2 d1 st (py_to_enum t) sig,
+        get_min_sig comp (rs_view p2) d1 st (et_from t) sig with
+  | PRet a, Ok b => minsig_eqb a b
+  | PRet _, Panic => true
+  | PRaise _, _ => false
+  end.
+Check eq_refl : try_inside = fun comp pp cyc st t =>
+  let sig := py_signature t in
+  match py_get_rule pp st (scan t) (fun _ => sig) with
+  | Some _ => true
+  | None =>
+  match cfg_get (pp_configs pp) sig with
+  | None => true
+  | Some pcs =>
+    match pcs_next_deltas pcs st (Z.of_N cyc) with
+    | Panic => true
+    | Ok (None, _) => true
+    | Ok (Some (d1, d2, d3), pcs1) =>
+      let p1 := mkPyProver (pp_rules pp) (cfg_set (pp_configs pp) sig pcs1) (pp_count pp) in
+      (d1 <=? 90000)%Z && (d2 <=? 90000)%Z && (d3 <=? 90000)%Z &&
+      round_inside comp p1 st sig d1 t &&
+      match py_sim_round comp p1 st sig d1 t with
+      | PRet (Some tags1) =>
+        round_inside comp p1 st sig d2 tags1 &&
+        match py_sim_round comp p1 st sig d2 tags1 with
+        | PRet (Some tags2) =>
+          round_inside comp p1 st sig d3 tags2 &&
+          match py_sim_round comp p1 st sig d3 tags2 with
+          | PRet (Some tags3) =>
+            match py_make_rule_raw (py_counts t) (py_counts tags1) (py_counts tags2) (py_counts tags3) with
+            | Ret None => true
+            | Raise (ExSuspectedRule _ _) => true
+            | Raise _ => false
+            | Ret (Some (rule, sd)) =>
+                negb sd &&
+                (if py_all_nonneg rule || py_has_mult rule || py_same_abs_exclusion rule t then true
+                 else minsig_inside comp
+                        (mkPyProver (pp_rules p1)
+                           (cfg_set (pp_configs p1) sig (pcs_delete_configs pcs1 st)) (pp_count p1))
+                        d1 st t sig)
+            end
+          | _ => true
+          end
+        | _ => true
+        end
+      | _ => true
+      end
+    end
+  end end.
+
+(** ---- min-signatures without rule applications (Proofs/PyEnumAgree.v) ---- *)
+From BB Require Import PyEnumAgree.
+Check C17_py_min_sig_agree_plain : forall comp pp pv,
+  lookup_eq (pp_rules pp) (pv_rules pv) ->
+  forall (d : Z) st t sig ms ms',
+  canon_tape t ->
+  replay_plain comp pp (Z.to_N d) st (py_to_enum t) = true ->
+  py_get_min_sig comp pp d st (py_to_enum t) sig = PRet ms ->
+  get_min_sig comp pv d st (et_from t) sig = Ok ms' ->
+  ms = ms'.
+Check C17_min_sig_guard_plain : forall comp p2 (d1 : Z) st t sig,
+  canon_tape t ->
+  replay_plain comp p2 (Z.to_N d1) st (py_to_enum t) = true ->
+  minsig_inside comp p2 d1 st t sig = true.
+Check eq_refl : replay_plain = fun comp pp n st et =>
+  match for_upto n (gbody (plain_g pp) (py_esim_body comp pp)) (st, et) with
+  | inr None => false
+  | _ => true
+  end.
+Check eq_refl : plain_g = fun pp (s : state * enum_tape) =>
+  match py_get_rule pp (fst s) (et_scan (snd s)) (fun _ => py_et_signature (snd s)) with
+  | None => true
+  | Some _ => false
+  end.
